@@ -1,11 +1,13 @@
 /-
   Driver handlers of component `aave` (JSON protocol).
 
-  `aave_step`  {ctx, env, state, op}            → {outcome, tag, result, state}      one call on the market object
+  `aave_step`  {ctx, env, state, op}            → {outcome, tag, result, state, wf}  one call on the market object; `wf` = `Aave.updWF env state`,
+                                                                                      the computable hypothesis of the `update()` theorems
   `aave_spec`  {ctx, env, supplies, borrows, view} → {outcome, tag, result}          the view recomputed from scratch
 -/
 import Demeter.Drv.Json
 import Demeter.Aave
+import Demeter.Aave.WF
 namespace Demeter.Drv
 open Demeter Demeter.Aave Lean
 
@@ -180,7 +182,7 @@ def aaveJHandlers : List (String × JHandler) := [
     let st ← AaveJ.state (← jObj j "state")
     let op ← AaveJ.op (← jObj j "op")
     let (r, s') := step cx env st op
-    pure (Json.mkObj (AaveJ.resJ r ++ [("state", AaveJ.stateJ s')]))),
+    pure (Json.mkObj (AaveJ.resJ r ++ [("state", AaveJ.stateJ s'), ("wf", Json.bool (updWF env st))]))),
   ("aave_spec", fun j => do
     let cx := AaveJ.actx j
     let env ← AaveJ.env (← jObj j "env")
